@@ -58,9 +58,9 @@ func TestC04_Filters(t *testing.T) {
 		c04Anchors(t)
 		cmds := rapid.SliceOfN(c04Cmd(), 1, 16).Draw(t, "cmds")
 		db := gen.Load(t, cmds)
-		warmed := warmUp(t, db, cmds)
 		q, qc := gen.Query(t, cmds, []gen.QueryClass{"vocab", "vocab", "nlp", "typo", "typo", "fragment", "fragment", "one", "mixed"})
 		opt := gen.Options(t, gen.OptSpec{N: len(cmds), NoNegLimit: true})
+		warmed := warmUp(t, db, cmds, q, opt)
 		path := rapid.SampledFrom([]string{"universal", "universal", "cached", "cached-delta", "cached-delta", "monitored", "legacy-pipeline"}).Draw(t, "path")
 		var res []database.SearchResult
 		switch path {
